@@ -670,6 +670,13 @@ class Real:
                     saver = mk(None)
                 with self.in_dir(self.elsewhere if self.rel else None):
                     saver.on_epoch_end(self.models[op["slot"]], op["path"])
+                if self.rel:
+                    # audit 3 (B5): WHERE a saver with a relative folder writes after the caller changed directory is not in C11's text. A
+                    # saver that wrote <cwd of the moment>/w/file<epoch>.pt (path kept as written, folder created at write time) did save:
+                    # the outcome is recorded by the hooks and the history ends there (the model's file map cannot follow)
+                    moved = os.path.join(self.elsewhere, "w", os.path.basename(self.where(op["path"])[0]))
+                    if os.path.exists(moved) and os.path.realpath(moved) != os.path.realpath(self.where(op["path"])[0]):
+                        self.unconstrained = "ModelSaver wrote under the working directory of the moment"
                 self.loc.pop(op["path"], None)   # ModelSaver writes to a path: the history's file is now that file, from its start
             elif t == "load":
                 if op.get("fobj") or self.must_be_fileobj(op["path"]):
